@@ -32,7 +32,7 @@ ASSUMPTIONS = ['sources within 0.5 deg of CRVAL so that the pixel-space model an
 MIN_REACH = {'source_finder:SourceFinder.priorized_fit_islands': 1, 'source_finder:SourceFinder._refit_islands': 1}
 MIN_COUNTERS = {'runs_with_sources_narrower_than_the_psf': 2, 'runs_ratio1_with_catalogue_psf_differing_from_beam': 2, 'runs_with_repeated_labels_inside_an_island': 1,
                 'outputs_judged': 100, 'cutout_width_odd': 10, 'cutout_width_even': 10, 'interference_pairs': 3,
-                'runs_over_20_groups': 2, 'file_inputs': 3, 'runs_polar_field_regroup_on': 4, 'sources_with_a_blank_pixel_next_to_the_centre': 10, 'polar_blend_members': 20}
+                'runs_over_20_groups': 2, 'file_inputs': 3, 'runs_polar_field_regroup_on': 4, 'runs_with_a_blend_between_4_median_a_and_4_mean_a': 3, 'runs_from_a_table_with_nan_psf_columns': 3, 'sources_with_a_blank_pixel_next_to_the_centre': 10, 'polar_blend_members': 20}
 BATCHES_PER_JOB = 4
 PRIORIZED = 64
 FWHM2CC = 1.0 / (2.0 * np.sqrt(2.0 * np.log(2.0)))
@@ -132,9 +132,47 @@ def gen_case(rng, n, tier, kind='model', blend_p=0.2, polar=False):
     return case
 
 
+def gen_mixed_case(rng, tier):
+    """many compact isolated sources plus one wide blend of two large sources whose separation lies between 4 x median(a) and
+    4 x mean(a) of the catalogue (the default linking length is 4 x the MEAN major axis): the blend must be fitted jointly"""
+    c = gen_case(rng, 1, tier)
+    scale = c['scale']
+    beam_px = c['beam'][0] / scale
+    a_c = c['beam'][0] * 3600 * 1.05
+    n = int(rng.integers(10, 15))
+    step = 6.0 * beam_px
+    side = int(step * 5 + 14 * beam_px)
+    c['shape'] = [side, side]
+    c['crpix'] = [side / 2.0 + 3.0, side / 2.0 - 2.0]
+    srcs = []
+    cells = [(i, j) for i in range(5) for j in range(5) if not (1 <= i <= 3 and 1 <= j <= 3)]
+    for k, idx in enumerate(rng.permutation(len(cells))[:n]):
+        i, j = cells[idx]
+        srcs.append({'island': k, 'index': [7 * beam_px + i * step + float(rng.uniform(-1, 1)), 7 * beam_px + j * step + float(rng.uniform(-1, 1))],
+                     'peak': float(10 ** rng.uniform(0, 1)), 'a': a_c, 'b': max(a_c * float(rng.uniform(0.8, 1.0)), c['beam'][1] * 3600),
+                     'pa': float(rng.uniform(-89, 90)), 'errs': [float(x) for x in 10 ** rng.uniform(-6, -2, 7)]})
+    # the wide blend in the (empty) middle of the field
+    a_big = 4.0 * a_c
+    sep_px = float(rng.uniform(4.3, 5.0)) * a_c / 3600 / scale
+    t = float(rng.uniform(0, 2 * np.pi))
+    mid = 7 * beam_px + 2 * step
+    pk = float(10 ** rng.uniform(0, 1))
+    for sgn in (-1, 1):
+        srcs.append({'island': n, 'index': [mid + sgn * 0.5 * sep_px * np.cos(t), mid + sgn * 0.5 * sep_px * np.sin(t)],
+                     'peak': pk * float(rng.uniform(0.6, 1.0)), 'a': a_big, 'b': a_big * float(rng.uniform(0.8, 1.0)),
+                     'pa': float(rng.uniform(-89, 90)), 'errs': [float(x) for x in 10 ** rng.uniform(-6, -2, 7)]})
+    c['sources'] = srcs
+    c.update(regroup=True, ratio=None, psf_columns=True, form='objects', mixed_sizes=True)
+    return c
+
+
 def cases(seed, tier):
     rng = rng_for(seed, 'c05')
     out = []
+    for i in range(6 if tier == 'quick' else 60):
+        c = gen_mixed_case(rng, tier)
+        c['stage'] = 1 + i % 3
+        out.append(c)
     sizes = [1, 2, 3, 5, 8, 12, 20, 25, 30, 40, 60] if tier == 'quick' else [1, 2, 3, 5, 8, 12, 20, 25, 30, 40, 60, 100, 150, 300]
     reps = 4 if tier == 'quick' else 30
     for r in range(reps):
@@ -227,6 +265,13 @@ def cases(seed, tier):
         c = gen_case(rng, int(rng.integers(2, 15)), tier, kind='nopsf')
         c['form'] = str(rng.choice(['csv', 'vot']))
         out.append(c)
+    # psf columns present but empty (NaN), in every table format
+    for i in range(6 if tier == 'quick' else 45):
+        c = gen_case(rng, int(rng.integers(2, 15)), tier, kind='nopsf')
+        c['form'] = ['vot', 'fits', 'csv'][i % 3]
+        c['nan_psf'] = True
+        c['ratio'] = None
+        out.append(c)
     return out
 
 
@@ -277,6 +322,13 @@ def write_catalogue(objs, form, psf_columns, sc):
         fmt = {'csv': 'ascii.csv', 'vot': 'votable', 'fits': 'fits'}[form]
         t = Table.read(fn, format=fmt)
         t.remove_columns([c for c in ('psf_a', 'psf_b', 'psf_pa') if c in t.colnames])
+        t.write(fn, format=fmt, overwrite=True)
+    elif psf_columns == 'nan':
+        # the columns are there but hold no value (NaN): a catalogue whose maker did not know the psf
+        fmt = {'csv': 'ascii.csv', 'vot': 'votable', 'fits': 'fits'}[form]
+        t = Table.read(fn, format=fmt)
+        for c in ('psf_a', 'psf_b', 'psf_pa'):
+            t[c] = np.full(len(t), np.nan)
         t.write(fn, format=fmt, overwrite=True)
     return fn
 
@@ -455,7 +507,10 @@ def run(case):
         # the catalogue as the finder will see it
         catalogue = objs
         if case['form'] != 'objects':
-            fn_cat = write_catalogue(objs, case['form'], case['psf_columns'] and case['kind'] != 'nopsf', sc)
+            fn_cat = write_catalogue(objs, case['form'], ('nan' if case.get('nan_psf') else False) if case['kind'] == 'nopsf' else case['psf_columns'], sc)
+            if case.get('nan_psf'):
+                o.count('runs_from_a_table_with_nan_psf_columns')
+                o.see('nan_psf_table_format', case['form'])
             seen_by_finder = read_back(fn_cat)
             o.count('file_inputs')
             catalogue = fn_cat
@@ -513,6 +568,11 @@ def run(case):
             o.count('runs_ratio1_with_catalogue_psf_differing_from_beam')
         if case.get('small_sources'):
             o.count('runs_with_sources_narrower_than_the_psf')
+        if case.get('mixed_sizes'):
+            aa = sorted(q['a'] for q in case['sources'])
+            sep = float(np.hypot(*(np.array(case['sources'][-1]['index']) - np.array(case['sources'][-2]['index'])))) * case['scale'] * 3600
+            if 4 * np.median(aa) < sep < 4 * np.mean(aa):
+                o.count('runs_with_a_blend_between_4_median_a_and_4_mean_a')
         if case.get('polar'):
             o.count('runs_polar_field_regroup_on')
             isl = [q['island'] for q in case['sources']]
